@@ -72,6 +72,7 @@ func runConcurrent(m *mon.M, pool []*testKey) {
 		var ends []*end
 		mk := func(pipelined bool) agent.ExtendedAgent {
 			c, s := duplex(mon.Pick(r, []int{0, 0, 7}))
+			c.w.jitter, s.w.jitter = true, true
 			ends = append(ends, c, s)
 			serve(m, &wg, kr, s, nil)
 			if pipelined {
